@@ -230,6 +230,28 @@ def package_signature(name):
 _PKG = None
 
 
+def module_number(name):
+    """a module-level name bound once to a number: -> int | 'inf' | None"""
+    if REPO is None:
+        return None
+    found = []
+    for rel, m in REPO.modules.items():
+        for n in m.tree.body:
+            if isinstance(n, ast.Assign) and any(isinstance(t, ast.Name) and t.id == name for t in n.targets):
+                found.append(n.value)
+    if len(found) != 1:
+        return None
+    v = found[0]
+    if isinstance(v, ast.Constant) and isinstance(v.value, int) and not isinstance(v.value, bool):
+        return v.value
+    if isinstance(v, ast.Call) and isinstance(v.func, ast.Name) and v.func.id == "float" and len(v.args) == 1 \
+            and isinstance(v.args[0], ast.Constant) and str(v.args[0].value).lower() in ("inf", "+inf", "infinity"):
+        return "inf"
+    if isinstance(v, ast.Attribute) and isinstance(v.value, ast.Name) and v.value.id in ("math", "np", "numpy") and v.attr == "inf":
+        return "inf"
+    return None
+
+
 def package_functions():
     """names of the package's module-level functions and classes: calling one is a modelled construct (its
     result is an unconstrained value of the analysis, as for the pinned planners)"""
@@ -722,6 +744,19 @@ class Interp:
                         return self.opaque(node, st)
                 self.note_fuzzy(node, f"call of self.{f.attr}(), a method with effects that is not analysed in place")
                 return self.unknown_call(node, st)
+            if f.attr == "get" and isinstance(f.value, ast.Dict) and 1 <= len(node.args) <= 2 and not node.keywords:
+                # lookup in a dictionary display whose keys are constants or enum members: the entry, or the default
+                key = self.ev(node.args[0], st)
+                if isinstance(key, Lin) and pure_sym(key) and st.enum_single(pure_sym(key)) is not None:
+                    key = Tok(st.enum_single(pure_sym(key)))
+                keys = [self.ev(k_, st) if k_ is not None else None for k_ in f.value.keys]
+                if isinstance(key, Tok) and all(isinstance(k_, Tok) for k_ in keys):
+                    for k_, v_ in zip(keys, f.value.values):
+                        if k_.v == key.v:
+                            return self.ev(v_, st)
+                    return self.ev(node.args[1], st) if len(node.args) == 2 else NONE
+                self.note_fuzzy(node, "lookup in a dictionary display with a key the analysis cannot determine")
+                return self.opaque(node, st)
             harmless = (isinstance(f.value, ast.Name) and f.value.id in ("warnings", "np", "numpy", "math", "functools", "sys")) \
                 or f.attr in ("format", "join", "copy", "items", "keys", "values", "get", "index", "count") \
                 or (isinstance(f.value, ast.Call) and isinstance(f.value.func, ast.Name) and f.value.func.id == "super")
@@ -899,6 +934,29 @@ class Interp:
                     and f.attr in self.methods:
                 fdef, skip_self = self.methods[f.attr], True
                 yield_index(fdef, self.yidx, self.ycounts)
+            elif isinstance(f, ast.Name) and f.id not in self.fnlocals and REPO is not None \
+                    and not any(isinstance(a, ast.Starred) for a in call.args) and not any(k.arg is None for k in call.keywords):
+                # a module-level generator function of the package that receives the schedule itself: analysed in place
+                # with that parameter standing for `self`
+                cands = [n for m in REPO.modules.values() for n in m.tree.body if isinstance(n, ast.FunctionDef) and n.name == f.id]
+                if len(cands) == 1 and is_generator_def(cands[0]) and not cands[0].decorator_list:
+                    g0 = cands[0]
+                    params = [a.arg for a in g0.args.args]
+                    self_pos = [i for i, a in enumerate(call.args) if isinstance(a, ast.Name) and a.id == "self"]
+                    self_kw = [k.arg for k in call.keywords if isinstance(k.value, ast.Name) and k.value.id == "self"]
+                    pname = params[self_pos[0]] if len(self_pos) == 1 and self_pos[0] < len(params) else (self_kw[0] if len(self_kw) == 1 else None)
+                    stored = {x.id for x in ast.walk(g0) if isinstance(x, ast.Name) and isinstance(x.ctx, ast.Store)}
+                    if pname is not None and pname not in stored and len(self_pos) + len(self_kw) == 1:
+                        g1 = copy.deepcopy(g0)
+                        g1.args.args = [a for a in g1.args.args if a.arg != pname]
+                        for x in ast.walk(g1):
+                            if isinstance(x, ast.Name) and x.id == pname:
+                                x.id = "self"
+                        call = copy.deepcopy(call)
+                        call.args = [a for a in call.args if not (isinstance(a, ast.Name) and a.id == "self")]
+                        call.keywords = [k for k in call.keywords if k.arg != pname]
+                        fdef = g1
+                        yield_index(fdef, self.yidx, self.ycounts)
         if fdef is None or not is_generator_def(fdef) or self.inline_depth > 2:
             raise Unsupported(f"yield from at line {node.lineno}: the delegated generator cannot be resolved")
         body = self.bind_params(fdef, call, [st], skip_self)
@@ -1168,6 +1226,9 @@ class Interp:
             tok, other = (a, b) if isinstance(a, Tok) else (b, a)
             s = pure_sym(other)
             if s is not None and op in (ast.Eq, ast.NotEq):
+                if tok.v == "None" and op is ast.Eq and (s in st.rows or any(s in i.t for i in st.ineq)):
+                    st.bottom = True        # a location with a numeric constraint holds a number, not None
+                    return
                 st.enum_meet(s, "in" if op is ast.Eq else "notin", [tok.v])
             elif isinstance(other, Lin) and op is ast.Eq and tok.v in ("None", "True", "False") \
                     and other.is_const():
@@ -1422,7 +1483,15 @@ class Interp:
                         self.set_loc(s.targets[0].id, tok, st2)
                         outs.append(st2)
                 return outs, [], []
-            if isinstance(s.value, ast.Name) and s.value.id not in self.fnlocals and s.value.id in self.pkg_functions:
+            if isinstance(s.value, ast.Name) and s.value.id not in self.fnlocals and module_number(s.value.id) is not None:
+                num = module_number(s.value.id)
+                if num == "inf":
+                    # an unbounded count: a number larger than anything it is compared with
+                    v = Lin.sym("const:" + s.value.id)
+                    st.add_ineq(v - Lin.const(10 ** 9))
+                else:
+                    v = Lin.const(num)
+            elif isinstance(s.value, ast.Name) and s.value.id not in self.fnlocals and s.value.id in self.pkg_functions:
                 v = Tok("fn:" + s.value.id)      # a local bound to a function of the package
                 for t in s.targets:
                     if isinstance(t, ast.Name) and self.fndefs.get(t.id, 0) > 1 and t.id not in self.partvars:
